@@ -10,8 +10,8 @@ EXTENDS LinAlg, Json
 
 CONSTANTS MaxEps, DeltaSizes, DoDump
 DeltaQuick == {<<1,1>>, <<2,1>>, <<3,1>>, <<4,1>>, <<2,2>>, <<3,2>>, <<4,2>>, <<5,2>>, <<3,3>>, <<4,3>>,
-               <<2,3>>, <<1,2>>, <<3,4>>, <<4,4>>}
-DeltaFull == DeltaQuick \cup {<<5,1>>, <<5,3>>, <<2,4>>, <<6,2>>}
+               <<2,3>>, <<1,2>>, <<3,4>>, <<4,4>>, <<8,2>>}
+DeltaFull == DeltaQuick \cup {<<5,1>>, <<5,3>>, <<2,4>>, <<6,2>>, <<7,2>>, <<9,2>>, <<6,3>>, <<7,1>>}
 VARIABLES pc, item, out
 vars == <<pc, item, out>>
 
